@@ -18,7 +18,8 @@ SPEC = dict(
                 "PARTIAL: tombstone lattices and union-find are C05/C04 (the tombstone part is run by this check as a second part)."),
     level_note=("Trusted as C01. A Vec-backed receiver (SetUnionVec as Self) reports true for duplicates; it has no PartialOrd so it "
                 "is not a Lattice in the crate and is outside the property's domain (not instantiated)."),
-    trusted_base=["std HashSet/BTreeSet/HashMap/BTreeMap extend/insert/get/len modelled as list operations"],
+    trusted_base=["std HashSet/BTreeSet/HashMap/BTreeMap extend/insert/get/len modelled as list operations",
+                  "lean/HvLat/translate_tables.py: our translator from Rust match arms / IsTop-IsBot-Default impl bodies to the Lean functions of Gen/Tables.lean (unknown syntax = broken tie)"],
     assumptions=["set/map backings hold no duplicate keys", "element/key types are u32; Max/Min over unsigned and signed integers and bool (every type of the impls_numeric! list and char are instantiated; Max<()>/Min<()> - one-point, no Default - are not)"],
 )
 
